@@ -260,7 +260,7 @@ pub fn build_skeleton(ops: &[Op]) -> Skeleton {
         close(&mut frames, &mut scope, &mut p);
     }
     let body = frames.pop().unwrap().stmts;
-    p.fns.push(FnDef {
+    p.fns.push(FnDef { owner: None, bounds: vec![],
         name: "main".into(),
         tparams: 0,
         params: vec![],
